@@ -45,6 +45,30 @@ var extraArgDocs = []argDoc{
 		[]map[string]interface{}{{}, {"b": true}, {"b": nil}, {"s": "y", "b": true}, {"s": nil}}},
 }
 
+// several operations that share a fragment in which a variable is used and that declare the variable
+// with different types (C03 round 8): every operation is asked for in turn, with values of each type
+type opDoc struct {
+	text string
+	ops  []string
+	vars []map[string]interface{}
+}
+
+var multiOpVals = []map[string]interface{}{{"v": true}, {"v": "yes"}, {"v": 1.0}, {"v": []interface{}{1.0}}, {}, {"v": nil}}
+
+var multiOpDocs = []opDoc{
+	{`query A($v: Boolean!) {...F} query B($v: String!) {d(s: $v) ...F} fragment F on Q {plain @skip(if: $v)}`, []string{"A", "B"}, multiOpVals},
+	{`query B($v: String!) {d(s: $v) ...F} query A($v: Boolean!) {...F} fragment F on Q {plain @skip(if: $v)}`, []string{"A", "B"}, multiOpVals},
+	{`query A($v: Int) {...F} query B($v: String) {...F} fragment F on Q {f(k: $v)}`, []string{"A", "B"}, multiOpVals},
+	{`query A($v: String) {...F} query B($v: Boolean) {...F} fragment F on Q {a: d(s: $v)}`, []string{"A", "B"}, multiOpVals},
+	{`query A($v: Boolean!) {...F} query B($v: Int!) {g(k: $v) ...F} query C($v: Boolean!) {...G} fragment F on Q {...G plain} fragment G on Q {a: plain @include(if: $v) f(k: 1)}`,
+		[]string{"A", "B", "C"}, multiOpVals},
+	{`query A($v: [Int!]) {...F} query B($v: Boolean) {...F} fragment F on Q {l(xs: $v)}`, []string{"A", "B"}, multiOpVals},
+	{`query A($v: Boolean) {...F} query B($v: Int = 1) {...F} fragment F on Q {x: o(id: "a") {h(k: $v)}}`, []string{"A", "B"}, multiOpVals},
+	// accepted: the same type in every operation; a fragment that only one operation reaches
+	{`query A($v: Boolean!) {...F} query B($v: Boolean!) {plain ...F} fragment F on Q {a: plain @skip(if: $v)}`, []string{"A", "B"}, multiOpVals},
+	{`query A($v: Boolean!) {...F} query B($v: String) {d(s: $v)} fragment F on Q {a: plain @include(if: $v)}`, []string{"A", "B"}, multiOpVals},
+}
+
 // subscription documents over the argument family's schema, with the query type also registered
 // as the subscription root (C03 only: graphql.Subscribe = source resolver of the single root field;
 // graphql.Execute on such a document = execution of one event)
@@ -93,6 +117,10 @@ func GenerateSubscription(r *rng.R) *Input {
 func GenerateArgs(r *rng.R) *Input {
 	s, docs, tbl := argFamilyParts()
 	docs = append(docs, extraArgDocs...)
+	if r.Chance(1, 5) {
+		d := multiOpDocs[r.Intn(len(multiOpDocs))]
+		return &Input{Schema: s, Text: d.text, OpName: d.ops[r.Intn(len(d.ops))], Vars: d.vars[r.Intn(len(d.vars))], table: tbl}
+	}
 	d := docs[r.Intn(len(docs))]
 	vars := d.vars[r.Intn(len(d.vars))]
 	return &Input{Schema: s, Text: d.text, Vars: vars, table: tbl}
